@@ -109,9 +109,9 @@ CHECKS = {
         design="§3 C20"),
     "C06": dict(
         text="Partial. Lean: the key each site receives is a function of program position and root key only, lies strictly below the root key, "
-             "and distinct positions get distinct keys (free algebra of split/fold_in). The purity claim itself lives in the runtime and is "
+             "and distinct positions get distinct keys (free algebra of split/fold_in); the STAGING CACHES of seed (stage keyed on function / tree / avals incl. weak types / keyword names / statics; the flat-sampler slot) are modelled: a cache whose key refines what staging depends on never changes the result of any call in any history, the coded keys do refine it, eager / jit / vmap / jit(vmap) present the same call to the caches (assumption: tracers keep weak types, stated); witnesses for keys that forget keyword names, weak types or avals. The purity claim itself lives in the runtime and is "
              "carried by the correspondence: generated seeded programs run fresh / after unseeded sampling / after other seeded programs / "
-             "under jit / vmap over keys / jit(vmap), each compared bit-for-bit with the model's key paths evaluated by jax.random.",
+             "under jit / vmap over keys / jit(vmap), each compared bit-for-bit with the model's key paths evaluated by jax.random; call histories over long-lived samplers that differ only in keyword names / weak vs strong scalars / shapes / static values, in several orders and modes, each result vs a fresh evaluation and vs the cache model's prediction of shared entries; argument kinds (reduced precision, narrow integers, pytrees); ADEV sites under seed.",
         note=TB + "C06 (partial): absence of other hidden state in JAX/XLA/TFP cannot be exhibited by the model; 'distinct keys give distinct draws' rests on threefry.",
         technique="Lean 4 proof of the key-path model + differential correspondence over call histories and transformations",
         design="§3 C06"),
